@@ -68,13 +68,7 @@ func (C16) Gen(r *simrt.RNG, tier string) core.Case {
 		a := world.ArgSpec{Kind: world.ArgTyped, Label: l}
 		if l.Name != "" {
 			a.Kind = world.ArgNamed
-			b := []byte(l.Name)
-			for i := range b {
-				if r.Chance(1, 3) {
-					b[i] -= 32
-				}
-			}
-			a.Spell = string(b)
+			a.Spell = world.RandomCase(r, l.Name)
 		}
 		w.Args = append(w.Args, a)
 		return len(w.Args) - 1
